@@ -62,15 +62,12 @@ func (n *Number) AddFrac(b byte) {
 	switch {
 	case 0 < len(n.BigBuf):
 		n.BigBuf = append(n.BigBuf, b)
-	case n.Frac <= BigLimit:
+	default:
 		n.Frac = n.Frac*10 + uint64(b-'0')
 		n.Div *= 10.0
-		if math.MaxInt64 < n.Frac {
+		if BigLimit <= n.Div { // same limit as the parsers' inline loops, keeps Div from overflowing
 			n.FillBig()
 		}
-	default: // big
-		n.FillBig()
-		n.BigBuf = append(n.BigBuf, b)
 	}
 }
 
